@@ -174,6 +174,7 @@ func checkC13(w *World, r *Report) {
 	r.Rule("C13.validated", "P4,P5", "every store write to a module's ParamsKey is reached only through the nil edge of Validate() on the value that is marshalled", 7)
 	r.Rule("C13.endtime", "P7", "stored minter parameters keep the shape the block routine relies on: parameter validation rejects, on every path, a last period with an EndTime and a non-last period without one, and accepts the two well-formed combinations (the validation step explored under the four combinations of position and nil-ness)", 4)
 	r.Rule("C13.endorder", "P7", "stored periods do not overlap: the validation step that compares a period's EndTime with the start of its period (params.StartTime for the first, the predecessor's EndTime afterwards - looked up in the list, or carried through the loop and then verified to be refreshed on every succeeding path) rejects before / equal and accepts after, for the first and for a later position", 6)
+	r.Rule("C13.loopvar", "P4", "= C03.loopvar over the parameter types of all three parameterised modules: validation must not keep the address of a per-loop variable beyond its iteration (a check made after the loop through such a pointer reads the last element: invalid parameter sets are accepted and stored); positive and negative controls", 6)
 	r.Rule("C13.current", "P5", "every cfeminter parameter write reachable from a message is reached only through the true edge of ContainsMinter(current state's SequenceId)", 2)
 	r.Rule("C13.denom", "P5", "the vesting denom update is reached only through the edge on which the list of all vesting pools is empty", 1)
 	if !ro.checkFloors(r) {
@@ -390,6 +391,7 @@ func checkC13(w *World, r *Report) {
 		containsMinterRule(w, r, "C13.current")
 		endTimeShapeRule(w, r, "C13.endtime")
 		endOrderRule(w, r, "C13.endorder")
+		loopVarRule(w, r, "C13.loopvar", "cfedistributor", "cfeminter", "cfevesting")
 		for _, h := range ro.MSG["cfeminter"] {
 			res := cg.GuardCover(h, func(s *Site) bool {
 				if cg.Atom(s) != StoreSet {
